@@ -181,6 +181,7 @@ def revisit(ctx):
 def check_case(ctx, case):
     from dateparser.date import DateDataParser
 
+    ctx.remember(check_case, case)
     phrase, exp, exp_period = expected_of(case)
     st = {"RELATIVE_BASE": parse_iso(case["base"]), "PREFER_DATES_FROM": case["pdf"]}
     if case["rtap"]:
@@ -252,6 +253,7 @@ def run_shard(ctx, desc):
                 check_case(ctx, gen_case(rnd))
         else:
             run_implicit(ctx, desc)
+        ctx.reask()
     finally:
         ac.stop()
     for k, v in ac.counts.items():
